@@ -143,6 +143,10 @@ func c14Run(f []string) string {
 		default:
 			return "err:bad-mode"
 		}
+		// the statement is shared by every partial and the final result of a (streamed) query
+		if stmt.NumResults != limit || stmt.SortBy != results.SortOrder(sortBy) || stmt.SortAscending != asc {
+			return "err:statement-changed"
+		}
 		var idx []string
 		for _, r := range res.Rows {
 			i, ok := first[r]
